@@ -61,6 +61,14 @@ class _Namer:
         # then/else bodies of the same If must not collide with each other's enclosing scope, only
         # with function-internal names: then-bodies use the scheme, else-bodies stay unique
         self.then_bodies = {n["subs"][0] for g in P["g"] for n in g["nodes"] if n["subs"]}
+        # the second main-graph input is called "w" too in the colliding variant - the name of the initializers of the
+        # control-flow bodies (an inner initializer may shadow an outer input) - unless a body captures that input,
+        # which the shadowing name would then hide from it
+        nf = len(P["f"])
+        bodies = [g for k, g in enumerate(P["g"], start=1) if k != 1 and k not in self.fbodies]
+        captured = any(tuple(r[:3]) == ("in", 1, 2) for g in bodies for n in g["nodes"] for r in n["ins"]) or \
+            any(tuple(r[:3]) == ("in", 1, 2) for g in bodies for r in g["outs"])
+        self.in2 = "w" if (collide and any(g["inits"] for g in bodies) and not captured) else "in2"
 
     def out(self, g, i, o) -> str:
         if self.collide and (g in self.fbodies or g in self.then_bodies):
@@ -77,7 +85,7 @@ class _Namer:
             return ""
         if kind == "in":
             if g == 1:
-                return ["in1", "in2", "cond"][i - 1]
+                return ["in1", self.in2, "cond"][i - 1]
             return f"g{g}_x{i}"
         if kind == "init":
             if self.collide and g != 1 and g not in self.fbodies and i == 1:
@@ -195,7 +203,7 @@ def concretize(P: dict, variant: int = 0, reverse_bodies: bool = False) -> onnx.
     nodes = _make_nodes(P, 1, nm, variant, False)
     inputs = [
         helper.make_tensor_value_info("in1", TensorProto.FLOAT, IN_SHAPE),
-        helper.make_tensor_value_info("in2", TensorProto.FLOAT, IN_SHAPE),
+        helper.make_tensor_value_info(nm.in2, TensorProto.FLOAT, IN_SHAPE),
         helper.make_tensor_value_info("cond", TensorProto.BOOL, []),
     ]
     # a graph output may alias an input/initializer directly (valid ONNX); duplicates are kept
